@@ -1,6 +1,7 @@
 package psim
 
 import (
+	"path"
 	"fmt"
 	"net/url"
 	"os"
@@ -98,6 +99,20 @@ func describeRun(r *Run, withProg bool) map[string]interface{} {
 	m["job_history"] = jobs
 	if len(r.Ops) > 0 {
 		m["operator"] = r.Ops
+	}
+	if os.Getenv("VERIF_FULLSCHED") != "" {
+		if b, err := os.ReadFile(path.Join(r.PsDir, "_log")); err == nil {
+			var keep []string
+			for _, l := range strings.Split(string(b), "\n") {
+				if strings.Contains(l, "instance of") || strings.Contains(l, "eartbeat") || strings.Contains(l, "WARNING") {
+					keep = append(keep, l)
+				}
+			}
+			if len(keep) > 40 {
+				keep = append(keep[:20], keep[len(keep)-20:]...)
+			}
+			m["mrp_log_file_excerpt"] = keep
+		}
 	}
 	if r.Class() != "complete" || os.Getenv("VERIF_FULLSCHED") != "" {
 		out := r.outBuf.String()
